@@ -188,6 +188,25 @@ def correspond(ctx):
     for ep in EPS:
         solvers.options.clear(); solvers.options['show_progress'] = False
         ref[ep] = image(call(ARGS, ep, {'show_progress': False, 'maxiters': 30}))
+    # diagnostic options: show_progress / debug only print - the result is bit-identical, the per-call value wins over the global one, and
+    # nothing is printed when the per-call dictionary switches the progress report off
+    for ep in EPS:
+        if ep == 'op.solve': continue
+        for glob_sp, opt in ((False, {'show_progress': True}), (True, {'show_progress': False}), (False, {'show_progress': False, 'debug': True}), (False, {'show_progress': True, 'debug': True})):
+            solvers.options.clear(); solvers.options['show_progress'] = glob_sp
+            buf = io.StringIO(); f_, a_, kw_ = ARGS[ep]
+            try:
+                with contextlib.redirect_stdout(buf): r = f_(*a_, **dict(kw_, options=dict(opt, maxiters=30)))
+            except Exception as e:
+                ctx.violation('c09:diagnostic-option-raises:%s:%s' % (ep, type(e).__name__), '%s with options %r raised %s: %s' % (ep, opt, type(e).__name__, e), {'entry': ep, 'options': opt}); continue
+            evals += 1
+            if image(r) != ref[ep]:
+                ctx.violation('c09:diagnostic-option-changes-result:' + ep, '%s with options %r returns a different result than without the diagnostic output' % (ep, opt), {'entry': ep, 'options': opt})
+            printed = bool(buf.getvalue().strip())
+            if printed != bool(opt.get('show_progress') or opt.get('debug')):
+                ctx.violation('c09:show-progress-not-honoured:' + ep, "%s with options %r and solvers.options['show_progress'] = %r %s" % (ep, opt, glob_sp, 'printed a progress report' if printed else 'printed nothing'),
+                              {'entry': ep, 'options': opt, 'global_show_progress': glob_sp})
+    solvers.options.clear(); solvers.options['show_progress'] = False
     impure = 0
     for i in range(hist_n):
         k = rng.randint(2, 6)
